@@ -34,7 +34,7 @@ impl <N: NumericOps> ArrayLinalgDecompositions<N> for Array<N> {
 
     fn qr(&self) -> LinalgResult<N> {
         self.is_dim_unsupported(&[0, 1])?;
-        self.is_square()?;
+        self.get_shape()?.is_square()?;
         if self.ndim()? == 2 {
             Ok(vec![Self::gram_schmidt(self)?])
         } else {
